@@ -27,6 +27,20 @@ static void print_link(KSI_HashChainLink *l) {
 	printf(":%llu", corr ? (unsigned long long)KSI_Integer_getUInt64(corr) : 0ULL);
 }
 
+
+/* metadata from "<clientHex>[,<machineHex|->[,<seq|->[,<reqTimeMicros|->]]]]" */
+static int md_from_spec(KSI_CTX *c, char *spec, KSI_MetaData **out) {
+	char *f[4] = {0}; int nf = 0, rc; char *sv = NULL, *q; KSI_MetaData *md = NULL; KSI_Utf8String *u = NULL; KSI_Integer *v = NULL; size_t l; unsigned char *b;
+	for (q = strtok_r(spec, ",", &sv); q && nf < 4; q = strtok_r(NULL, ",", &sv)) f[nf++] = q;
+	rc = KSI_MetaData_new(c, &md);
+	if (rc == KSI_OK) { b = hx_dec(f[0], &l); rc = KSI_Utf8String_new(c, (char *)b, l, &u); free(b); if (rc == KSI_OK) rc = KSI_MetaData_setClientId(md, u); KSI_Utf8String_free(u); u = NULL; }
+	if (rc == KSI_OK && nf > 1 && strcmp(f[1], "-")) { b = hx_dec(f[1], &l); rc = KSI_Utf8String_new(c, (char *)b, l, &u); free(b); if (rc == KSI_OK) rc = KSI_MetaData_setMachineId(md, u); KSI_Utf8String_free(u); }
+	if (rc == KSI_OK && nf > 2 && strcmp(f[2], "-")) { rc = KSI_Integer_new(c, strtoull(f[2], NULL, 10), &v); if (rc == KSI_OK) rc = KSI_MetaData_setSequenceNr(md, v); KSI_Integer_free(v); v = NULL; }
+	if (rc == KSI_OK && nf > 3 && strcmp(f[3], "-")) { rc = KSI_Integer_new(c, strtoull(f[3], NULL, 10), &v); if (rc == KSI_OK) rc = KSI_MetaData_setRequestTimeInMicros(md, v); KSI_Integer_free(v); }
+	if (rc != KSI_OK) { KSI_MetaData_free(md); md = NULL; }
+	*out = md; return rc;
+}
+
 int main(void) {
 	char *line = NULL; size_t cap = 0; char **tok = H_MALLOC(sizeof(char *) * 1024);
 	if (KSI_CTX_new(&ctx) != KSI_OK) return 2;
@@ -43,7 +57,7 @@ int main(void) {
 		b->maxTreeLevel = (short)atoi(tok[2]);
 		printf("T add=");
 		for (i = 3; i < n; i++, nl++) {
-			char kind = tok[i][0]; int lvl = atoi(tok[i] + 2); char *hex = strchr(tok[i] + 2, ':') + 1; size_t len; unsigned char *raw = hx_dec(hex, &len);
+			char kind = tok[i][0]; int lvl = atoi(tok[i] + 2); char *hex = strchr(tok[i] + 2, ':') + 1; size_t len = 0; unsigned char *raw = kind == 'h' ? hx_dec(hex, &len) : NULL;
 			ishash[nl] = (kind == 'h');
 			if (kind == 'h') {
 				KSI_DataHash *hsh = NULL;
@@ -51,11 +65,8 @@ int main(void) {
 				if (rc == KSI_OK) rc = KSI_TreeBuilder_addDataHash(b, hsh, lvl, &h[nl]);
 				KSI_DataHash_free(hsh);
 			} else {
-				KSI_MetaData *md = NULL; KSI_Utf8String *cid = NULL;
-				rc = KSI_MetaData_new(ctx, &md);
-				if (rc == KSI_OK) rc = KSI_Utf8String_new(ctx, (char *)raw, len, &cid);
-				if (rc == KSI_OK) rc = KSI_MetaData_setClientId(md, cid);   /* the setter takes its own reference */
-				KSI_Utf8String_free(cid);
+				KSI_MetaData *md = NULL;
+				rc = md_from_spec(ctx, hex, &md);          /* the setters take their own references */
 				if (rc == KSI_OK) rc = KSI_TreeBuilder_addMetaData(b, md, lvl, &h[nl]);
 				KSI_MetaData_free(md);
 			}
